@@ -3,12 +3,14 @@
  R1 graph construction: one node per key of `subs`; an edge for every Jmp::Call whose target
     is a key of `subs` (loops over all subs x blocks x jumps, no early exit / extra filter);
     edges are added with add_edge (two calls to the same callee are two edges)
- R2 direction agreement (contradiction rule): each traversal uses ONE direction for the
-    neighbours it follows and the edges it collects; the two traversals use opposite
-    directions; forward starts at the source, backward at the target; a node is expanded only
-    when newly inserted into its visited set
- R3 intersection: the result iterates one edge set, keeps an edge iff the other contains it,
-    and maps it to the call's tid
+ R2 traversals: a traversal never follows neighbours in one direction and collects edges in
+    the other (contradiction rule); a traversal is either forward from the source or
+    backward from the target; a node is expanded only when newly inserted into its own
+    visited set
+ R3 evidence for the result: every returned call must be known to have its caller reachable
+    from the source (edge collected as outgoing edge of a forward-visited node, or tested for
+    membership in such a set) AND its callee reaching the target (incoming edge of a
+    backward-visited node / membership); the call's tid is reported
 """
 from .lib import sym as S
 from .lib import thir as T
@@ -101,75 +103,167 @@ def run(run):
             for x, conds in T.paths_to(lp, lambda y: T.is_call(y, "push")):
                 for cd in conds:
                     if cd[0] == "if":
-                        c = sy.ev(cd[1], env)
-                        pol = cd[2]
-                        while c[0] == "not":
-                            c, pol = c[1], not pol
-                        if is_call(c, "insert") and pol:
-                            guarded = True
-                            visited = fmt(c[2][0])
-                        if is_call(c, "contains") and not pol:
-                            guarded = True
-                            visited = fmt(c[2][0])
+                        lits = []
+
+                        def flat(c, pol):
+                            if c[0] == "and" and pol:
+                                flat(c[1], True); flat(c[2], True)
+                            elif c[0] == "or" and not pol:
+                                flat(c[1], False); flat(c[2], False)
+                            elif c[0] == "not":
+                                flat(c[1], not pol)
+                            else:
+                                lits.append((c, pol))
+                        flat(sy.ev(cd[1], env), cd[2])
+                        for c, pol in lits:
+                            if is_call(c, "insert") and pol:
+                                guarded = True
+                                visited = fmt(c[2][0])
+                            if is_call(c, "contains") and not pol and visited is None:
+                                guarded = True
+                                visited = fmt(c[2][0])
             esets = [T.show(c["a"][0]).replace("&mut ", "") for c in T.calls(lp, name="insert") if any(T.is_call(y, "id") for y in T.walk(c))]
             out.append({"start": start, "nb": [dir_of(c) for c in nb], "ed": [dir_of(c) for c in ed], "guarded": guarded, "visited": visited, "eset": esets[0] if esets else None, "loop": lp})
         return out
 
-    def r2():
-        f = F.fn("find_call_sequences_from_node_to_target", mod="analysis::callgraph")
-        tr = traversals(f)
-        site = F.loc(f["body"])
-        if len(tr) != 2:
-            run.undecided("R2", "two-traversals", "expected two traversals, found %d" % len(tr), site)
-            return
-        dirs = []
-        for i, t in enumerate(tr):
-            ds = set(t["nb"]) | set(t["ed"])
-            run.check("R2", "traversal%d|one-direction" % i, len(ds) == 1 and None not in ds and t["nb"] and t["ed"], "a traversal must follow neighbours and collect edges in the SAME direction; it follows %s and collects %s" % (t["nb"], t["ed"]), F.loc(t["loop"]))
-            run.check("R2", "traversal%d|expand-on-first-visit" % i, t["guarded"], "a node must be expanded only when it is newly inserted into the visited set (termination on cycles, and every reachable node expanded once)", F.loc(t["loop"]))
-            dirs.append(next(iter(ds)) if len(ds) == 1 else None)
-        run.check("R2", "opposite-directions", set(dirs) == {"Outgoing", "Incoming"}, "one traversal must go forward (Outgoing) and the other backward (Incoming); found %s" % dirs, site)
-        for i, t in enumerate(tr):
-            st = fmt(t["start"]) if t["start"] else ""
-            want = "source_node" if dirs[i] == "Outgoing" else "target_node" if dirs[i] == "Incoming" else None
-            run.check("R2", "traversal%d|start-node" % i, want is not None and want in st and ("target_node" if want == "source_node" else "source_node") not in st, "the %s traversal must start at the %s; it starts at %s" % ("forward" if dirs[i] == "Outgoing" else "backward", want, st), F.loc(t["loop"]))
-        vs = [t["visited"] for t in tr]
-        run.check("R2", "separate-visited-sets", vs[0] != vs[1] and None not in vs, "the two traversals need separate visited sets; found %s" % vs, site)
-        es = [t["eset"] for t in tr]
-        run.check("R2", "separate-edge-sets", es[0] != es[1] and None not in es, "the two traversals must collect into separate edge sets; found %s" % es, site)
-
-    run.guarded("R2", r2)
-
-    def r3():
+    def analyse():
+        """evidence analysis: which endpoint facts are known for the edges in each edge set"""
         f = F.fn("find_call_sequences_from_node_to_target", mod="analysis::callgraph")
         tr = traversals(f)
         sy = S.Sym(F)
         env = {}
-        t = sy.term(f["body"], env)
+        sy.term(f["body"], env)
+        info = []
+        for t in tr:
+            st = fmt(t["start"]) if t["start"] else ""
+            start = "source" if ("source_node" in st and "target_node" not in st) else "target" if ("target_node" in st and "source_node" not in st) else None
+            nbd = set(t["nb"])
+            cls = None
+            if len(nbd) == 1:
+                d = next(iter(nbd))
+                if start == "source" and d == "Outgoing":
+                    cls = "FWD"
+                elif start == "target" and d == "Incoming":
+                    cls = "BWD"
+            # extra conditions on the expansion besides the visited-set insert
+            extra = []
+            for x, conds in T.paths_to(t["loop"], lambda y: T.is_call(y, "push")):
+                for cd in conds:
+                    if cd[0] == "if":
+                        c = sy.ev(cd[1], env)
+                        def flat(c, pol, out):
+                            if c[0] == "and" and pol:
+                                flat(c[1], True, out); flat(c[2], True, out)
+                            elif c[0] == "not":
+                                flat(c[1], not pol, out)
+                            else:
+                                out.append((c, pol))
+                        lits = []
+                        flat(c, cd[2], lits)
+                        for l, pol in lits:
+                            if is_call(l, "insert") and pol:
+                                continue
+                            if l[0] == "let" and is_call(l[2], "pop"):
+                                continue
+                            extra.append((l, pol))
+            ev = set()
+            edirs = set(t["ed"])
+            if t["eset"] and len(edirs) == 1 and cls is not None:
+                d = next(iter(edirs))
+                if cls == "FWD" and d == "Outgoing":
+                    ev.add("SRC_FWD")
+                if cls == "BWD" and d == "Incoming":
+                    ev.add("TGT_BWD")
+            info.append({"t": t, "class": cls, "start": start, "extra": extra, "evidence": ev})
+        return f, tr, info, sy, env
+
+    def r2():
+        f, tr, info, sy, env = analyse()
+        site = F.loc(f["body"])
+        if not tr:
+            run.undecided("R2", "traversals", "no worklist traversal recognised", site)
+            return
+        for i, (t, inf) in enumerate(zip(tr, info)):
+            if t["nb"] and t["ed"]:
+                ds = set(t["nb"]) | set(t["ed"])
+                run.check("R2", "traversal%d|one-direction" % i, len(ds) == 1 and None not in ds, "a traversal follows neighbours in direction %s but collects edges in direction %s (contradiction)" % (t["nb"], t["ed"]), F.loc(t["loop"]))
+            run.check("R2", "traversal%d|expand-on-first-visit" % i, t["guarded"], "a node must be expanded only when it is newly inserted into the visited set (termination on cycles, and every reachable node expanded once)", F.loc(t["loop"]))
+            if inf["class"] is None:
+                run.violated("R2", "traversal%d|start-and-direction" % i, "a traversal starting at the %s node and following %s neighbours computes neither the nodes reachable from the source nor the nodes that reach the target" % (inf["start"], t["nb"]), F.loc(t["loop"]))
+            else:
+                run.holds("R2", "traversal%d|start-and-direction" % i, "%s" % inf["class"], F.loc(t["loop"]))
+            if inf["extra"]:
+                run.undecided("R2", "traversal%d|complete" % i, "the expansion is restricted by extra conditions %s: completeness of the traversal is not decided" % [fmt(c)[:60] for c, _ in inf["extra"]], F.loc(t["loop"]))
+        classes = [inf["class"] for inf in info]
+        run.check("R2", "both-directions-present", "FWD" in classes and "BWD" in classes, "a forward traversal from the source and a backward traversal from the target are both needed; found %s" % classes, site)
+        vs = [t["visited"] for t in tr]
+        run.check("R2", "separate-visited-sets", len(set(vs)) == len(vs) and None not in vs, "every traversal needs its own visited set; found %s" % vs, site)
+
+    run.guarded("R2", r2)
+
+    def r3():
+        f, tr, info, sy, env = analyse()
+        t = sy.term(f["body"], {})
         res = S.value(t)
         site = F.loc(f["body"])
-        esets = {x["eset"] for x in tr}
-        iterated = [y for y in S.subterms(res) if is_call(y, ("iter", "into_iter")) and y[2] and y[2][0][0] == "var"]
-        it_name = iterated[0][2][0][1] if iterated else None
-        unions = [y[1] for y in S.subterms(res) if is_call(y, ("union", "chain", "extend", "symmetric_difference", "difference"))]
-        contains = None
-        mapped_tid = False
-        for c in F.closures(f):
-            ct = S.Sym(F).scan(c["body"]).ev(c["body"], env)
-            for y in S.subterms(ct):
-                if isinstance(y, tuple) and y and y[0] == "ite" and is_call(y[1], "contains"):
-                    contains = (y[1][2][0][1] if y[1][2][0][0] == "var" else fmt(y[1][2][0]), S.value(y[2]), S.value(y[3]))
-        inter = any(is_call(y, "intersection") for y in S.subterms(res))
-        if inter:
-            run.holds("R3", "intersection", "uses set intersection", site)
-        elif contains is None or it_name is None:
-            run.check("R3", "intersection", False, "the result must be the intersection of the forward and the backward edge set; found %s (set operations: %s)" % (fmt(res)[:120], unions), site)
-        else:
-            other, then, els = contains
-            good = it_name in esets and other in esets and other != it_name and then[0] == "adt" and then[2] == "Some" and els[0] == "adt" and els[2] == "None" and not unions
-            run.check("R3", "intersection", good, "the result must keep an edge of one set iff the OTHER set contains it; iterates %s, tests membership in %s" % (it_name, other), site)
-            tid = then[0] == "adt" and any(isinstance(z, tuple) and z and z[0] == "field" and z[2] == "tid" for z in S.subterms(then)) and any(is_call(z, "index") for z in S.subterms(then))
-            run.check("R3", "mapped-to-call-tid", tid, "each kept edge must be reported as the tid of the call it stands for (edge weight .tid)", site)
+        ev_of = {inf["t"]["eset"]: inf["evidence"] for inf in info if inf["t"]["eset"]}
+
+        class Unknown(Exception):
+            pass
+
+        def evidence(x):
+            """endpoint facts known for every edge produced by the iterator / set term x"""
+            x = S.value(x)
+            if x[0] == "var":
+                if x[1] in ev_of:
+                    return set(ev_of[x[1]])
+                raise Unknown("set %s" % x[1])
+            if is_call(x, ("iter", "into_iter", "cloned", "copied", "collect", "map")):
+                return evidence(x[2][0])
+            if is_call(x, "intersection") and len(x[2]) == 2:
+                return evidence(x[2][0]) | evidence(x[2][1])
+            if is_call(x, ("union", "chain", "symmetric_difference")):
+                return evidence(x[2][0]) & evidence(x[2][1])
+            if is_call(x, ("filter", "filter_map")) and len(x[2]) == 2 and x[2][1][0] == "closure":
+                base = evidence(x[2][0])
+                c = F.closure_by_path(x[2][1][1])
+                ct = S.value(S.Sym(F).scan(c["body"]).ev(c["body"], dict(env)))
+                # keep iff contains(OTHER, e)
+                cond = None
+                if ct[0] == "ite":
+                    then, els = S.value(ct[2]), S.value(ct[3])
+                    keep_then = not (then[0] == "adt" and then[2] == "None") and then != ("lit", False)
+                    keep_else = not (els[0] == "adt" and els[2] == "None") and els != ("lit", False)
+                    if keep_then and not keep_else:
+                        cond = (ct[1], True)
+                    elif keep_else and not keep_then:
+                        cond = (ct[1], False)
+                    elif keep_then and keep_else:
+                        return base
+                elif is_call(ct, "contains") or ct[0] in ("not", "and"):
+                    cond = (ct, True)
+                if cond is None:
+                    raise Unknown("filter closure %s" % fmt(ct)[:80])
+                c0, pol = cond
+                while c0[0] == "not":
+                    c0, pol = c0[1], not pol
+                if c0[0] == "or":
+                    return base  # a disjunction does not restrict to the other set
+                if is_call(c0, "contains") and pol and c0[2][0][0] == "var":
+                    return base | set(ev_of.get(c0[2][0][1], set()))
+                raise Unknown("filter condition %s" % fmt(c0)[:80])
+            raise Unknown(fmt(x)[:80])
+
+        try:
+            ev = evidence(res)
+            need = {"SRC_FWD", "TGT_BWD"}
+            missing = need - ev
+            names = {"SRC_FWD": "its caller is reachable from the source function", "TGT_BWD": "its callee reaches the target function"}
+            run.check("R3", "result|edges-on-source-to-target-paths", not missing, "a call lies on a source-to-target path iff its caller is reachable from the source AND its callee reaches the target; for the returned calls nothing establishes that %s" % " and that ".join(names[m] for m in sorted(missing)), site)
+        except Unknown as e:
+            run.undecided("R3", "result|edges-on-source-to-target-paths", "result expression outside the vocabulary: %s" % e, site)
+        tid = any(isinstance(z, tuple) and z and z[0] == "field" and z[2] == "tid" for c in F.closures(f) for z in S.subterms(S.Sym(F).term(c["body"]))) and "Tid" in F.tyi(f["ret"])
+        run.check("R3", "mapped-to-call-tid", tid, "each kept edge must be reported as the tid of the call it stands for (edge weight .tid)", site)
         f2 = F.fn("find_call_sequences_to_target", mod="analysis::callgraph")
         t2 = S.Sym(F).term(f2["body"])
         cs = [y for y in S.subterms(t2) if is_call(y, "find_call_sequences_from_node_to_target")]
